@@ -229,6 +229,13 @@ def check_state(st, ent, out):
         bad('points-differ', "the two one-sided bases do not share their quadrature points")
         return
     n = np.asarray(b0.normals)                       # (dim, nfac, nq)
+    # the two one-sided bases must really look from the two different neighbours of each facet
+    for k, j in enumerate(np.asarray(b0.find)):
+        cells = set(T.facet_cells[frozenset(int(v) for v in m.facets[:, j])])
+        if {int(b0.tind[k]), int(b1.tind[k])} != cells or len(cells) != 2:
+            bad('sides-not-the-two-neighbours', f"interior facet {int(j)} lies in cells {sorted(cells)} but side 0 / side 1 are "
+                f"evaluated from cells {int(b0.tind[k])} / {int(b1.tind[k])}")
+            return
 
     def traces(b):
         """value (and gradient) traces of every unit vector: arrays (N, comps.., nfac, nq)."""
